@@ -289,7 +289,7 @@ async def guarded(flavor: str, fn, horizon: float = 1.0e5):
 
 
 def run_threaded(setup, seed: int = 0, strategy: str = "random", p: float = 0.1, lines: bool = False,
-                 depth: int = 2, est_steps: int = 3000, wall_timeout: float = 60.0):
+                 depth: int = 2, est_steps: int = 3000, wall_timeout: float = 60.0, p_jump: float = 0.0):
     """Run callers on real threads under the controlled scheduler.
 
     setup(sched) -> dict name -> zero-arg function (run in its own managed thread); it is called after the
@@ -301,6 +301,7 @@ def run_threaded(setup, seed: int = 0, strategy: str = "random", p: float = 0.1,
     import os
 
     s = Sched(seed, strategy, p, depth=depth, est_steps=est_steps)
+    s.p_jump = p_jump
     shim = ShimThreading(s)
     real = sync_mod.threading
     sync_mod.threading = shim
